@@ -198,7 +198,10 @@ func predConcurrent(c Case) (r Result) {
 			comp = fresh
 		}
 	}
-	shared := ref.DeepCopy(orig)
+	// the shared document is built the way Go programs build documents: arrays grown by append
+	// have spare capacity behind their elements, which is as much part of the caller's memory
+	// (and as read-only) as the elements are
+	shared := withSpareCapacity(ref.DeepCopy(orig))
 	snap := ref.DeepCopy(orig)
 	type res struct {
 		out libOut
@@ -311,6 +314,10 @@ func predConcurrent(c Case) (r Result) {
 	if !reflect.DeepEqual(shared, snap) {
 		r.Violation = "concurrent searches modified the shared document"
 		r.Expected, r.Got = ref.Canon(snap), show(shared)
+		return
+	}
+	if !tailsIntact(shared) {
+		r.Violation = "concurrent searches wrote behind an array of the shared document (spare capacity overwritten)"
 		return
 	}
 	for g := range results {
